@@ -14,6 +14,9 @@ FAULTS = [
     ("py-block", ["<%", "  a = 1", "  b = (", "  c = 3", "%>"], None, 0),       # CPython reports '(' never closed at its own line
     ("py-block-bad-token", ["<%", "  a = 1", "  b = 2 +* 3", "  c = 3", "%>"], 2, 0),
     ("py-module-block", ["<%!", "  import os", "  def f(:", "      pass", "%>"], 2, 0),
+    ("py-block-indented-close", ["<%", "    x = 1", "    y = 2", "    z = = 3", "        %>"], 3, 0),
+    ("py-block-trailing-blank-lines", ["<%", "  v = 1", "  w = = 2", "", "", "   %>"], 2, 0),
+    ("py-block-leading-blank-lines", ["<%", "", "   ", "  w = = 2", "%>"], 3, 0),
     ("py-def-signature", ['<%def name="d(x=)">', "body", "</%def>"], 0, 0),
     ("py-page-signature", ['<%page args="a=="/>'], 0, 0),
     ("py-filter-list", ["${x | f(}"], 0, 0),
